@@ -142,3 +142,38 @@ def build():
     sp.fields = lambda c: {}
     specs.append(sp)
     return reg, specs
+
+
+def build_ctors():
+    """Node.__init__ / AnyNode.__init__ (C02: 'the constructors' parent=/children= arguments behave like the corresponding
+    assignments'): keyword attributes into the instance dict, [name,] then `self.parent = parent`, then `self.children = children`
+    iff children is truthy - each an ordinary assignment on the new node, i.e. the verified property setters."""
+    reg = Registry()
+    specs = []
+    for rel, cls, has_name in (("anytree/node/node.py", "Node", True), ("anytree/node/anynode.py", "AnyNode", False)):
+        def post(c, S1, r, has_name=has_name):
+            evs = effects(c)
+            truthy = c.args["children"].x["truth"]
+            want = ["dict-update"] + (["assign:name"] if has_name else []) + ["assign:parent"]
+            names = [e[0] if e[0] != "assign-on-self" else "assign:" + e[1] for e in evs]
+            with_children = names == want + ["assign:children"]
+            without = names == want
+            cl = [Clause("sequence: kwargs into the instance dict, %sparent assignment, children assignment iff truthy" % ("name, " if has_name else ""),
+                         BoolVal(with_children or without), {"C02"}),
+                  Clause("children-assigned-iff-given", truthy if with_children else Not(truthy), {"C02"})]
+            if with_children or without:
+                k = 1 + (1 if has_name else 0)
+                cl += [Clause("kwargs-update-the-new-node's-own-dict", BoolVal(evs[0][1].k == "obj" and evs[0][1].t == "self0" and evs[0][2] is c.args["**kwargs"]), {"C02"}),
+                       Clause("parent-assignment-gets-the-parent-argument", BoolVal(evs[k][2] is c.args["parent"]), {"C02"})]
+                if has_name:
+                    cl.append(Clause("name-stored", BoolVal(evs[1][2] is c.args["name"]), {"C02"}))
+                if with_children:
+                    cl.append(Clause("children-assignment-gets-the-children-argument", BoolVal(evs[k + 1][2] is c.args["children"]), {"C02"}))
+            return cl
+        params = [("self", "obj:" + cls)] + ([("name", "any")] if has_name else []) + [("parent", "ref"), ("children", "any"), ("**kwargs", "any")]
+        sp = QSpec(reg, rel, cls, "__init__", "method", params, lambda c: [], [Outcome("return", "return", post, mods=())], props={"C02"})
+        sp.world = ATTRWORLD
+        sp.fields = lambda c: {}
+        sp.plain_store = True
+        specs.append(sp)
+    return specs
